@@ -309,6 +309,11 @@ func (df *DriverFacts) traces(fn *ssa.Function, iface *types.Interface) ([][]str
 				}
 				continue
 			}
+			// a method of the converter taken as a value and called later
+			if names := boundConverterMethods(c.Call.Value, iface, 0); len(names) > 0 {
+				events[b] = append(events[b], "conv("+strings.Join(names, "|")+")")
+				continue
+			}
 			// steps handed to a sequencing helper (run one after the other, the first error ends the
 			// sequence): the events of each step, in the order in which the steps are handed over
 			if bi, ok := c.Call.Value.(*ssa.Builtin); ok && bi.Name() == "append" && len(c.Call.Args) == 2 && isStepList(c.Type()) {
@@ -755,6 +760,32 @@ func (df *DriverFacts) traces(fn *ssa.Function, iface *types.Interface) ([][]str
 			alts = next
 		}
 		expanded = append(expanded, alts...)
+	}
+	// a converter method chosen first and called afterwards (lenOf := conv.SliceLen; … lenOf(v)):
+	// one trace per method that can be the one called
+	{
+		var grown [][]string
+		for _, t := range expanded {
+			alts := [][]string{{}}
+			for _, e := range t {
+				if strings.HasPrefix(e, "conv(") && strings.Contains(e, "|") {
+					names := strings.Split(strings.TrimSuffix(strings.TrimPrefix(e, "conv("), ")"), "|")
+					var next [][]string
+					for _, a := range alts {
+						for _, n := range names {
+							next = append(next, append(append([]string{}, a...), "conv("+n+")"))
+						}
+					}
+					alts = next
+					continue
+				}
+				for i := range alts {
+					alts[i] = append(alts[i], e)
+				}
+			}
+			grown = append(grown, alts...)
+		}
+		expanded = grown
 	}
 	seen2 := map[string]bool{}
 	var out2 [][]string
@@ -1603,4 +1634,47 @@ func dispatchesOn(fn *ssa.Function, p *ssa.Parameter) bool {
 		}
 	}
 	return false
+}
+
+// boundConverterMethods: v is a method of the converter taken as a value (conv.SliceLen), or one
+// of several chosen on the way; the names of the methods (nil when v is anything else).
+func boundConverterMethods(v ssa.Value, iface *types.Interface, depth int) []string {
+	if depth > 3 {
+		return nil
+	}
+	switch x := v.(type) {
+	case *ssa.ChangeType:
+		return boundConverterMethods(x.X, iface, depth+1)
+	case *ssa.MakeClosure:
+		f, _ := x.Fn.(*ssa.Function)
+		if f == nil || f.Synthetic == "" || !strings.HasSuffix(f.Name(), "$bound") || len(x.Bindings) != 1 {
+			return nil
+		}
+		if !types.Identical(x.Bindings[0].Type().Underlying(), iface) {
+			return nil
+		}
+		return []string{strings.TrimSuffix(f.Name(), "$bound")}
+	case *ssa.Phi:
+		var out []string
+		for _, e := range x.Edges {
+			ns := boundConverterMethods(e, iface, depth+1)
+			if len(ns) == 0 {
+				return nil
+			}
+			for _, n := range ns {
+				dup := false
+				for _, o := range out {
+					if o == n {
+						dup = true
+					}
+				}
+				if !dup {
+					out = append(out, n)
+				}
+			}
+		}
+		sort.Strings(out)
+		return out
+	}
+	return nil
 }
